@@ -10,7 +10,7 @@ use serde_json::{Value, json};
 use std::collections::HashMap;
 
 const IDS: [&str; 3] = ["1", "18446744073709551615", "\"a-string-id\""];
-const METHODS: [&str; 2] = ["blob", "blob_err"];
+const METHODS: [&str; 3] = ["blob", "blob_err", "blob_blocking"];
 const KINDS: [u8; 5] = [0, 1, 2, 3, 4];
 const NMAX: usize = 700;
 
@@ -45,7 +45,7 @@ fn class_of(kind: u8) -> &'static str {
 pub fn check(rep: &Reporter) {
 	let thorough = rep.tier.thorough();
 	rep.set_rule(
-		"limits L = 40..260 in steps of 1 (thorough to 600, plus 2048/4096/10000) ∪ {1024, 65536}; for each L and each of 30 response shapes (result / error-with-data × ASCII / needs-escaping / 2-byte / 4-byte UTF-8 / control characters × id width 1 / 20 digits / string) every handler payload size whose unlimited reply is within L±3 (thorough ±6) bytes, plus 0 and a far-too-big one, over HTTP and WebSocket (TowerService), and for limits on a stride of 7 also through http::call_with_service_builder and ws::connect with a request limit above resp. below the response limit; batches of 1..4 (thorough 6) entries whose array length is L−2…L+2 (thorough ±4) with the adjustable entry at every position, all valid calls or with one other entry (last / middle / first) replaced by a non-request (`17`, an object without method); WebSocket subscribe calls whose response carries a subscription id of controlled width (response length L−2…L+2); plus the full 1-step sweep of MethodResponse::response and BatchResponseBuilder. Oracle: the reply of a server with the limit disabled; every frame on the wire is ≤ L bytes or one of the two fixed errors; the handler log is the same with and without the limit. Distinct by (L, shape, size, transport).",
+		"limits L = 40..260 in steps of 1 (thorough to 600, plus 2048/4096/10000) ∪ {1024, 65536}; for each L and each of 45 response shapes (sync result / async error-with-data / blocking result × ASCII / needs-escaping / 2-byte / 4-byte UTF-8 / control characters × id width 1 / 20 digits / string) every handler payload size whose unlimited reply is within L±3 (thorough ±6) bytes, plus 0 and a far-too-big one, over HTTP and WebSocket (TowerService), and for limits on a stride of 7 also through http::call_with_service_builder and ws::connect with a request limit above resp. below the response limit; batches of 1..4 (thorough 6) entries whose array length is L−2…L+2 (thorough ±4) with the adjustable entry at every position, all valid calls or with one other entry (last / middle / first) replaced by a non-request (`17`, an object without method); WebSocket subscribe calls whose response carries a subscription id of controlled width (response length L−2…L+2); plus the full 1-step sweep of MethodResponse::response and BatchResponseBuilder. Oracle: the reply of a server with the limit disabled; every frame on the wire is ≤ L bytes or one of the two fixed errors; the handler log is the same with and without the limit. Distinct by (L, shape, size, transport).",
 	);
 	rep.assume("the 'fixed small too-big error itself' (-32008 / -32011) may exceed L, as the statement says");
 
